@@ -62,7 +62,11 @@ template <int B> void mixed_block_case(long idx) {
     typedef static_matrix<double, B, B> DBk; typedef static_matrix<float, B, B> FBk;
     Rng r(vf::case_seed("mixed_block", idx)); vf::GridSpec g; Csr<double> S = vf::model_problem(r, 300, 700, &g);
     std::vector<double> Cb = vf::spd_block(B, r); Csr<double> A = vf::kron(S, Cb, B); std::vector<double> f = vf::random_vector(A.n, r);
-    Case c("mixed_block", idx, J().n("b", B).n("n", A.n).n("nnz", A.nnz()).n("nx", g.nx).n("ny", g.ny).n("nz", g.nz).n("contrast", g.contrast).n("aniso", g.aniso));
+    // two thirds of the cases: the matrix (not the rhs) multiplied by 2^-30 / 2^+30 -- coefficients ~1e-9 are below the float epsilon but far
+    // inside the float range, every component is scale invariant, so the float block hierarchy must still work (h-backend, seeded C13-3)
+    static const int SC[3] = {0, -30, 30}; const int sc = SC[(idx / 2) % 3]; if (sc) for (auto &v : A.val) v = std::ldexp(v, sc);
+    vf::obs_add("mixed_block_matrix_scalings_seen", "2^" + std::to_string(sc));
+    Case c("mixed_block", idx, J().n("b", B).n("scale_log2", sc).n("n", A.n).n("nnz", A.nnz()).n("nx", g.nx).n("ny", g.ny).n("nz", g.nz).n("contrast", g.contrast).n("aniso", g.aniso));
     vf::SolveSpec sp; sp.maxiter = 100; sp.tol = 1e-8; sp.explicit_res = true; auto T = A.tie();
     try {   // hybrid backend: float block hierarchy, double FGMRES
         typedef make_solver<amg<backend::builtin_hybrid<FBk>, coarsening::smoothed_aggregation, relaxation::spai0>, solver::fgmres<backend::builtin_hybrid<DBk>>> S1;
